@@ -109,7 +109,16 @@ func (f *frame) callTargetInner(cc *ssa.CallCommon, fnVal *Value, args []Value, 
 		if len(f.c.CallAsserts[site]) > 0 {
 			x.hitSites[site] = true
 		}
-		for _, a := range f.c.CallAsserts[site] {
+		asserts := f.c.CallAsserts[site]
+		// callee#last addresses the last call of that callee in the text, whatever its number
+		if ps := f.sites[key]; len(ps) > 0 && ps[len(ps)-1] == pos {
+			lastSite := shortKey(key) + "#last"
+			if la := f.c.CallAsserts[lastSite]; len(la) > 0 {
+				x.hitSites[lastSite] = true
+				asserts = append(append([]*Clause{}, asserts...), la...)
+			}
+		}
+		for _, a := range asserts {
 			sc := x.newSpecCtx(f, n, st, x.entryState)
 			sc.anchor = pos
 			sc.bindArgs(x.S.Contracts[key], callee, cc, args)
